@@ -74,8 +74,18 @@ def gen(seed):
             out.append(' ' * ind + '}')
         return out
     main += emit(root, 0)
+    # symbols that are not ordinary defined functions: thread-locals (STT_TLS), data objects, an exported data object
+    main.append('#[allow(non_upper_case_globals)] static zq_static_plain: std::sync::atomic::AtomicU64 = std::sync::atomic::AtomicU64::new(5);')
+    main.append('#[allow(non_upper_case_globals)] #[no_mangle] pub static zq_static_exported: std::sync::atomic::AtomicU64 = std::sync::atomic::AtomicU64::new(6);')
+    main.append('thread_local! { #[allow(non_upper_case_globals)] static zq_tls_counter: std::cell::Cell<u64> = std::cell::Cell::new(7); }')
+    main.append('thread_local! { #[allow(non_upper_case_globals)] static zq_tls_depth: std::cell::Cell<u32> = const { std::cell::Cell::new(8) }; }')
     main.append('fn main() {')
     main.append('    let mut s: u64 = std::env::args().count() as u64;')
+    main.append('    s = s.wrapping_add(zq_static_plain.fetch_add(1, std::sync::atomic::Ordering::SeqCst));')
+    main.append('    s = s.wrapping_add(zq_static_exported.fetch_add(1, std::sync::atomic::Ordering::SeqCst));')
+    main.append('    zq_tls_counter.with(|c| c.set(c.get() + s));')
+    main.append('    zq_tls_depth.with(|c| c.set(c.get() + 1));')
+    main.append('    s = s.wrapping_add(zq_tls_counter.with(|c| c.get())).wrapping_add(zq_tls_depth.with(|c| c.get()) as u64);')
     rng.shuffle(calls)
     for c in calls:
         main.append(f'    s = s.wrapping_add({c});')
